@@ -274,6 +274,23 @@ pub fn verif_header_is_valid(channel: u8, raw: [u8; 12]) -> bool {
     }
 }
 
+/// Verification hook: send one frontend-channel message (header, 8-byte body, variable payload)
+/// with attached descriptors through the crate-private `Endpoint`, the sender shared by all
+/// endpoints and proxies. The socket is used as it is (blocking mode, buffer sizes).
+#[cfg(feature = "verif-hooks")]
+pub fn verif_send_with_payload(
+    sock: std::os::unix::net::UnixStream,
+    code: message::FrontendReq,
+    body: u64,
+    payload: &[u8],
+    fds: Option<&[std::os::unix::io::RawFd]>,
+) -> Result<()> {
+    use self::message::{FrontendReq, VhostUserMsgHeader, VhostUserU64};
+    let mut ep = connection::Endpoint::<VhostUserMsgHeader<FrontendReq>>::from_stream(sock);
+    let hdr = VhostUserMsgHeader::new(code, 0, (8 + payload.len()) as u32);
+    ep.send_message_with_payload(&hdr, &VhostUserU64::new(body), payload, fds)
+}
+
 #[cfg(all(test, feature = "vhost-user-backend"))]
 mod dummy_backend;
 
